@@ -172,6 +172,29 @@ static void ob_refine(H<T>& h)
     }
 }
 
+// the uniform grid of a new pdf (and the end points every refined grid inherits from it)
+template <typename T>
+static void ob_uniform(H<T>& h)
+{
+    std::size_t const lo = h.get("Bmin", 2), hi = h.get("Bmax", 16), d = h.get("d", 2);
+    for (std::size_t B = lo; B <= hi; ++B)
+    {
+        hep::vegas_pdf<T> const pdf(d, B);
+        auto ok = h.truth(pdf.bins() == B && pdf.dimensions() == d);
+        auto mono = h.truth(true);
+        for (std::size_t i = 0; i != d; ++i)
+        {
+            ok = ok && h.same(pdf.bin_left(i, 0), T(0.0)) && h.same(pdf.bin_left(i, B), T(1.0));
+            for (std::size_t b = 0; b != B; ++b) mono = mono && h.lt(pdf.bin_left(i, b), pdf.bin_left(i, b + 1));
+            if (!sym::bit_precise)
+                for (std::size_t b = 0; b <= B; ++b) ok = ok && h.eq(pdf.bin_left(i, b) * T(B), T(b));
+        }
+        h.event("bins " + std::to_string(B));
+        h.check("C07,C19|uniform.grid_starts_at_zero_and_ends_at_one_exactly", ok);
+        h.check("C07,C19|uniform.boundaries_strictly_increasing", mono);
+    }
+}
+
 template <typename T>
 static void body(H<T>& h)
 {
@@ -179,6 +202,7 @@ static void body(H<T>& h)
     {
     case 0: ob_icdf(h); break;
     case 1: ob_refine(h); break;
+    case 2: ob_uniform(h); break;
     }
 }
 
